@@ -58,9 +58,21 @@ def rule_H4(ctx):
         f = m.funcs.get(f'dtypes:Register.{nm}')
         if f is None:
             raise AnalysisError(f'anchor vanished: Register.{nm}')
-        props = [x for x in own_walk(f.node) if isinstance(x, ast.Call) and isinstance(x.func, ast.Name) and x.func.id == 'property']
+        def prop_calls(fn):
+            return [x for x in own_walk(fn.node) if isinstance(x, ast.Call) and isinstance(x.func, ast.Name) and x.func.id == 'property']
+        props = prop_calls(f)
+        holder = f
+        if not props:
+            # the two installs moved into a shared method of the register that this one calls with the definition
+            for c in own_walk(f.node):
+                if isinstance(c, ast.Call) and isinstance(c.func, ast.Attribute) and isinstance(c.func.value, ast.Name) and c.func.value.id in ('cls', 'self', 'Register'):
+                    g = m.funcs.get(f'dtypes:Register.{c.func.attr}')
+                    if g is not None and len(prop_calls(g)) == 2:
+                        props, holder = prop_calls(g), g
+                        break
         if len(props) != 2:
             raise AnalysisError(f'Register.{nm}: property installs not recognised')
+        f_outer, f = f, holder
         for p in props:
             kw = {k.arg: ast.unparse(k.value) for k in p.keywords}
             if not _re1.fullmatch(r'\w+\.get_fn', kw.get('fget') or '') or ('fset' in kw and not _re1.fullmatch(r'\w+\.set_fn', kw['fset'])) \
